@@ -178,6 +178,8 @@ func runC10(w *core.World, r *core.Report) {
 	r.Rule("R12", "the data type, session and language selected on a handle are written by their setters only")
 	r.Rule("R11", "a listing (Dump) leaves the data type, session and language selected on the store handle as it found them")
 	r.Rule("R10", "fs Get answers from the store: every value it returns is what a file read returned in that call (no memoised copy beside the store)")
+	r.Rule("R16", "fs: every file opened for writing is an os.CreateTemp result (C11 R8): a scratch name derived from the record shares the name space of records")
+	r.Rule("R15", "ToKey: the default key and the translation key share no memory (a back end may rewrite one in place)")
 	r.Rule("R14", "filesystem listing: Dump re-initialises every field of the handle the listing functions keep their progress in")
 	r.Rule("R9", "filesystem listing: the directory cursor is the full listing and only ever advances by one entry (no entry is skipped unexamined)")
 
@@ -488,6 +490,8 @@ func runC10(w *core.World, r *core.Report) {
 	}
 
 	checkListingStateReinitialised(w, r, "R14")
+	checkLookupKeysShareNoMemory(w, r, "R15")
+	checkUniqueTempFiles(w, r, "R16")
 
 	checkFsGetReturnsFileBytes(w, r, "R10", "the filesystem back end can answer a Get from a copy kept beside the store: after a Put through another key form (language fallback) or another store object the copy is stale and the back ends diverge: ")
 	checkDumpKeepsSelection(w, r, "R11")
